@@ -25,6 +25,10 @@ pub enum Subst {
     TwoPowBits,
     U64Max,
     Uniform(u64),
+    /// promise + 2^bits (same low bits)
+    AddTwoPowBits,
+    /// promise with one bit flipped (positions 0..63, also above the bit length)
+    FlipBit(u8),
 }
 fn subst_strategy() -> impl Strategy<Value = Subst> {
     prop_oneof![
@@ -38,6 +42,8 @@ fn subst_strategy() -> impl Strategy<Value = Subst> {
         2 => Just(Subst::TwoPowBits),
         1 => Just(Subst::U64Max),
         2 => any::<u64>().prop_map(Subst::Uniform),
+        2 => Just(Subst::AddTwoPowBits),
+        3 => (0u8..64).prop_map(Subst::FlipBit),
     ]
 }
 
@@ -73,6 +79,14 @@ pub fn subst_oracle<E: Engine>(_ctx: &RunCtx, spec: &PromSpec, log: &mut CaseLog
         },
         Subst::U64Max => Some(u64::MAX),
         Subst::Uniform(u) => Some(u & mask_of(cfg.bits)),
+        Subst::AddTwoPowBits => {
+            if cfg.bits < 64 {
+                Some(old.unwrap_or(0).wrapping_add(1u64 << cfg.bits))
+            } else {
+                Some(old.unwrap_or(0) ^ (1u64 << 63))
+            }
+        },
+        Subst::FlipBit(i) => Some(old.unwrap_or(0) ^ (1u64 << i)),
     };
     let mut promises = t.promises.clone();
     promises[j] = new;
